@@ -290,21 +290,27 @@ def generate(seed, tier):
         T = rng.randint(1, 12)
         P, F, E = stationary_tables(rng, n, T)
         ops = stage(n, P, F, E) + ["build r resc 1", "build g log 1"]
+        last = None     # (order, variable) of the last derivative asked: asked again right after an update
         for _ in range(rng.randint(4, 12)):
             u = rng.random()
             var = "e%d_%d" % (rng.randrange(T), rng.randrange(n))
-            if u < 0.55:
+            if u < 0.5:
                 dd = rng.choice(["d1", "d2"])
                 ops += ["%s r %s" % (dd, var), "%s g %s" % (dd, var)]
-            elif u < 0.7:
+                last = (dd, var)
+            elif u < 0.62:
                 o = rng.choice(["r", "g"])
                 ops += ["d2 %s %s" % (o, var), "d1 %s %s" % (o, var)]
-            elif u < 0.85:
-                v = h(10.0 ** (-rng.uniform(0, 3)))
-                ops += ["setp r %s %s" % (var, v), "setp g %s %s" % (var, v)]
+                last = ("d1", var)
             else:
-                bs = " ".join(map(str, rand_breaks(rng, T)))
-                ops += ["brk r " + bs, "brk g " + bs]
+                if u < 0.82:
+                    v = h(10.0 ** (-rng.uniform(0, 3)))
+                    ops += ["setp r %s %s" % (var, v), "setp g %s %s" % (var, v)]
+                else:
+                    bs = " ".join(map(str, rand_breaks(rng, T)))
+                    ops += ["brk r " + bs, "brk g " + bs]
+                if last and rng.random() < 0.8:
+                    ops += ["%s r %s" % last, "%s g %s" % last]
         cases.append(["case deriv%d n=%d T=%d stat" % (i, n, T)] + ops)
     # ---- tm: the built-in transition models
     n_tm = 200 if thorough else 40
